@@ -137,6 +137,18 @@ function plan (seed, run, tier) {
     // rarely: more than a thousand other files are rewritten through the caching rewriter
     if (run % 40 === 7 && i === (nOps >> 1)) ops.push({ op: 'RewriteBurst', n: 1001 })
   }
+  // coincidence search (no draw: appended after everything else): for a file with an external original map the
+  // map on disk is replaced by one that sends every position to exactly the generated line and column of one
+  // site (learned from a first throw), so that only the path differs between the generated and the original location
+  if (anyChain && run % 3 === 1) {
+    const rwi = cfgs.findIndex(c => c.chainSourceMap)
+    files.forEach((fo, fi) => {
+      if (fo.rawOnly) return
+      const vi = fo.versions.findIndex(v => v.kind === 'mod' && v.omap && v.omap.mode === 'external')
+      if (vi < 0) return
+      ops.push({ op: 'Rewrite', rw: rwi, f: fi, v: vi }, { op: 'Load', f: fi }, { op: 'Pin', f: fi, site: (run + fi) % 6 })
+    })
+  }
   // the rewriter's logger may be on for the whole run (process-wide level on the Rust side)
   const logLevel = rng.pick(['off', 'off', 'off', 'debug', 'trace'])
   // two instances of the package in one process (a module reload, a duplicate copy): the second wraps the
@@ -145,7 +157,9 @@ function plan (seed, run, tier) {
   return { cfgs, files, lookups, ops, logLevel, lateRewriter, loggerKinds, twoInstances, tag: allowMsgAt ? 'msg-at-allowed' : '' }
 }
 
+const PINS = {} // file -> {mapPath, json}: set and cleared inside one Pin operation
 function fsFor (plan, file, code) {
+  if (PINS[file]) return { nodes: { [PINS[file].mapPath]: { t: 'Text', v: PINS[file].json } } }
   // the disk as it is when this version of the file is rewritten: its own external map (all
   // versions of a file share one map path; a re-build overwrites it)
   const f = plan.files.find(x => x.path === file)
@@ -534,6 +548,60 @@ async function execute (plan, table) {
         rep.cells.push(`Throw:${site.kind}:${rel}:${op.via}`)
         log.push(`#${seq} Throw f=${op.f} v=${ld.v} site=${site.k}(${site.kind}) via=${op.via} rel=${rel} frames=${lastRaw ? lastRaw.length : '-'} top=${lastRaw && lastRaw[0] ? lastRaw[0].line : '-'}`)
         st('op:Throw')
+      } else if (op.op === 'Pin') {
+        const f = plan.files[op.f]; const ld = f && loaded[f.path]; const lx = f && L[f.path]
+        const ver = ld && f.versions[ld.v]
+        const cfgP = lx && plan.cfgs[lx.rw]
+        const rwP = lx && rewriters[lx.rw]
+        const okSites = ver ? ver.sites.filter(x => ['body', 'operand', 'arrow', 'far-column', 'multiline'].includes(x.kind)) : []
+        if (!ld || !lx || ld.id !== lx.id || lx.status !== 'modified' || lx.inst !== 'A' || !rwP || !cfgP || !cfgP.chainSourceMap || !ver.omap || ver.omap.mode !== 'external' || !okSites.length) { log.push(`#${seq} Pin f=${op.f} skipped`); seq++; continue }
+        const site = okSites[op.site % okSites.length]
+        const fn = ld.exports[site.entry || site.fn]
+        if (typeof fn !== 'function') { seq++; continue }
+        const throwOnce = () => { let e; try { e = fn('arg', null) } catch (x) { e = x } return Array.isArray(e) ? e[0] : e }
+        Error.prepareStackTrace = undefined; fragileInstalled = false
+        lastRaw = null
+        let e1 = throwOnce(); try { void (e1 && e1.stack) } catch (e) {}
+        const top = lastRaw && lastRaw.find(r => r.file === f.path && r.fn === site.fn && !r.isEval)
+        if (!top || !(top.line >= 1) || !(top.col >= 1)) { log.push(`#${seq} Pin f=${op.f} no frame`); seq++; continue }
+        const toks = []
+        for (let Ln = 0; Ln < ver.nLines + 4; Ln++) toks.push({ gl: Ln, gc: 0, src: 0, sl: top.line - 1, sc: top.col - 1, name: null })
+        const pinnedSource = 'pinned/layout.ts'
+        const pinnedPath = path.join(path.dirname(f.path), pinnedSource)
+        PINS[f.path] = { mapPath: ver.omap.mapPath, json: smap.encodeMap({ file: path.basename(f.path), sources: [pinnedSource], names: [], toks }) }
+        let st2 = 'failed'
+        try {
+          try { const r2 = rwP.rewrite(ver.text, f.path); st2 = r2 && r2.metrics && r2.metrics.status } catch (e) {}
+          if (st2 === 'modified') {
+            st('probe:generated-position-equals-original-position')
+            const want = `${pinnedPath}:${top.line}:${top.col}`
+            const raw = `${f.path}:${top.line}:${top.col}`
+            // string flavour
+            lastRaw = null; handlerThrew = null
+            e1 = throwOnce(); let s1; try { s1 = e1 && e1.stack } catch (e) {}
+            if (handlerThrew) viol('N1', 'N1:prepareStackTrace-threw', `[op #${seq} Pin] the package's prepareStackTrace threw: ${handlerThrew && handlerThrew.message}`)
+            if (typeof s1 === 'string' && lastRaw && lastRaw.find(r => r.file === f.path && r.line === top.line && r.col === top.col)) {
+              if (!s1.includes(want) || s1.includes(raw)) viol('P1', 'P1:string-path-coincident-position', `[op #${seq}] the original map sends ${raw} to the same line and column of ${pinnedPath}; the formatted stack reads ${JSON.stringify(s1.split('\n').filter(l => l.includes(f.path) || l.includes(pinnedPath)).slice(0, 3))}`)
+            }
+            // structured flavour
+            Error.prepareStackTrace = mkUser('pin' + seq)
+            lastRaw = null; handlerThrew = null
+            e1 = throwOnce(); let s2; try { s2 = e1 && e1.stack } catch (e) {}
+            if (Array.isArray(s2) && lastRaw) {
+              const i = lastRaw.findIndex(r => r.file === f.path && r.line === top.line && r.col === top.col)
+              if (i >= 0 && s2[i] && (s2[i].getFileName !== pinnedPath || s2[i].getLineNumber !== top.line)) viol('P1', 'P1:structured-path-coincident-position', `[op #${seq}] the original map sends ${raw} to the same line and column of ${pinnedPath}; the wrapped call site reports ${s2[i].getFileName}:${s2[i].getLineNumber}:${s2[i].getColumnNumber}`)
+            }
+            Error.prepareStackTrace = undefined
+          }
+        } finally {
+          delete PINS[f.path]
+          // the map on disk is put back and the file rewritten once more: the caches are as they were
+          try { rwP.rewrite(ver.text, f.path) } catch (e) {}
+        }
+        hist.push(['Pin', op.f, st2])
+        rep.cells.push(`Pin:${site.kind}:${st2}`)
+        log.push(`#${seq} Pin f=${op.f} v=${ld.v} site=${site.k}(${site.kind}) at ${top.line}:${top.col} -> ${st2}`)
+        st('op:Pin')
       } else if (op.op === 'Lookup') {
         const l = plan.lookups[op.lf]; const s = lookupState[op.lf]
         if (!l) { seq++; continue }
